@@ -47,3 +47,12 @@ package tables
 //@   mode int
 //@   requires [one-delta-per-region] forall(o, 0, len(store.ItemVariationDatas), forall(d, 0, len(store.ItemVariationDatas[o].DeltaSets), len(store.ItemVariationDatas[o].DeltaSets[d]) == len(store.ItemVariationDatas[o].RegionIndexes)))
 //@   modifies unspecified
+//
+// Coverage format 2: Len bounds every index that Index can return (the interface documents Len as 1 + the maximum
+// index; the sanitizers rely on it to validate the arrays indexed by coverage indexes).
+//@ func Coverage2.Len C09c
+//@   mode int
+//@   ensures [bounds-every-index] forall(k, 0, len(cr.Ranges), implies(cr.Ranges[k].StartGlyphID <= cr.Ranges[k].EndGlyphID, int(cr.Ranges[k].StartCoverageIndex) + int(cr.Ranges[k].EndGlyphID) - int(cr.Ranges[k].StartGlyphID) < result))
+//@   ensures [non-negative] result >= 0
+//@   modifies nothing
+//@   loop 1 invariant [so-far] size >= 0 && forall(k, 0, rangeindex+1, implies(cr.Ranges[k].StartGlyphID <= cr.Ranges[k].EndGlyphID, int(cr.Ranges[k].StartCoverageIndex) + int(cr.Ranges[k].EndGlyphID) - int(cr.Ranges[k].StartGlyphID) < size))
